@@ -21,7 +21,7 @@ import (
 	"go.etcd.io/bbolt/verifh/drv"
 )
 
-const c03Rule = "generated concurrent programs: 2-12 goroutines, each a generated list of calls from {Update whose body reads four counters, bumps one and writes a per-transaction log key (or, in 2 of 11 cases, only reads: a committed no-op still consumes its id), ending in commit / returned error / panic; manual Begin(true) + same body + Rollback or Commit; View; Begin(false) + read + Rollback; Batch (MaxBatchSize in {0,1,2,3,1000}, MaxBatchDelay in {0,1,10 ms}); Stats}; optionally one goroutine calls Close at a generated point; GOMAXPROCS in {2,4,16}; hook callbacks yield at every I/O call; built with -race. Oracle (schedule independent): (i) no two write bodies overlap in time; (ii) the committed bodies sorted by tx id carry consecutive ids starting at last-committed+1, each read exactly the state its predecessor produced (serial replay), non-committing bodies leave no trace (final dump = serial replay of the committed ones) ; (iii) every read transaction saw exactly the state of the version its tx id names, and one begun after a commit returned never carries a smaller id than that commit; (iv) the race detector reports nothing; (v) the program terminates within the deadline; after Close every call returns ErrDatabaseNotOpen. Non-trivial = at least one Begin(true) had to wait for another write body, and a non-committing body ran between two committing ones. Distinct = SHA-256 of the program."
+const c03Rule = "generated concurrent programs: 2-12 goroutines, each a generated list of calls from {Update whose body reads four counters, bumps one and writes a per-transaction log key (or, in 2 of 11 cases, only reads: a committed no-op still consumes its id), ending in commit / returned error / panic; manual Begin(true) + same body + Rollback or Commit; View; Begin(false) + read + Rollback; Batch (MaxBatchSize in {0,1,2,3,1000}, MaxBatchDelay in {0,1,10 ms}); Stats}; optionally one goroutine calls Close at a generated point; GOMAXPROCS in {2,4,16}; hook callbacks yield at every I/O call; built with -race. Oracle (schedule independent): (i) no two write bodies overlap in time; (ii) the committed bodies sorted by tx id carry consecutive ids starting at last-committed+1, each read exactly the state its predecessor produced (serial replay), non-committing bodies leave no trace (final dump = serial replay of the committed ones) ; (iii) every read transaction saw exactly the state of the version its tx id names, and one begun after a commit returned never carries a smaller id than that commit; (iv) the race detector reports nothing; (v) the program terminates within the deadline - also when an OnCommit handler starts the next writer; commit handlers run only for committed transactions; after Close every call returns ErrDatabaseNotOpen. Non-trivial = at least one Begin(true) had to wait for another write body, and a non-committing body ran between two committing ones. Distinct = SHA-256 of the program."
 
 type c03Call struct {
 	Kind    string `json:"kind"`    // update manual view beginro batch stats close
@@ -96,6 +96,8 @@ func c03Run(p c03Prog) (v *drv.Violation, waited bool, mixed bool) {
 		wantW   atomic.Int32 // goroutines currently inside or waiting for a write transaction
 		waitObs atomic.Bool
 		closed  atomic.Bool
+		// handlerRuns counts executed OnCommit/OnRollback handlers
+		handlerRuns atomic.Int64
 	)
 	setViol := func(x *drv.Violation) {
 		mu.Lock()
@@ -181,6 +183,7 @@ func c03Run(p c03Prog) (v *drv.Violation, waited bool, mixed bool) {
 				switch c.Kind {
 				case "update":
 					var bd *c03Body
+					var nested []*c03Body
 					if wantW.Add(1) > 1 {
 						waitObs.Store(true)
 					}
@@ -192,6 +195,36 @@ func c03Run(p c03Prog) (v *drv.Violation, waited bool, mixed bool) {
 						}()
 						return db.Update(func(tx *bolt.Tx) error {
 							bd = body(tx, c)
+							if c.Counter == 1 {
+								// a commit handler runs once, only for a committed transaction, after the transaction has
+								// ended - so a handler may itself start the next writer (it must be admitted, with the
+								// next id) without dead-locking
+								myID := tx.ID()
+								tx.OnCommit(func() {
+									handlerRuns.Add(1)
+									if c.Outcome != "commit" {
+										setViol(drv.Violf("the OnCommit handler of write transaction %d ran although its function ended with %s", myID, c.Outcome))
+									}
+									err := db.Update(func(tx2 *bolt.Tx) error {
+										if tx2.ID() <= myID {
+											setViol(drv.Violf("a write transaction begun from the OnCommit handler of transaction %d carries id %d", myID, tx2.ID()))
+										}
+										nb := body(tx2, c03Call{Kind: "update", Outcome: "commit", Counter: 2, Delta: 0})
+										nested = append(nested, nb)
+										return nil
+									})
+									if err == nil {
+										mu.Lock()
+										for _, nb := range nested {
+											nb.committed = true
+										}
+										nested = nil
+										mu.Unlock()
+									} else {
+										okAfterClose(err, "Update from an OnCommit handler")
+									}
+								})
+							}
 							switch c.Outcome {
 							case "error":
 								return errC03
